@@ -24,16 +24,19 @@ Two variants of the implementation are supported (`variant()` probes which one i
             `isonorm2`, `kept2`, `stiso2`, graph dumps with `ct=2`).  For this matcher `Properties/C15.lean` *proves* the
             full statement (`iso_sound`, `iso_normalised_sound`, `dedup_sound`), so a false-equal is a plain VIOLATION (no
             finding key covers it), the witnesses must be told apart, and on every pair the model's own answer is checked
-            against the model's brute-force `renEq` (reported isomorphic => equal up to renaming).
+            against the model's brute-force `renEq` (reported isomorphic => equal up to renaming).  The converse is proved
+            too (`iso_complete`, `filter_comparison_decides_renaming`): renamed copies, also with operations on disjoint
+            registers appended in another order (pair class `renamed+reordered`), must be reported isomorphic.
   coded     the matcher before the repair: compared with `circuitIsIsomorphic` / `isoNormalised` / `removeRedundant`, for
             which `Properties/C15.lean` keeps the kernel-checked refutation (`iso_sound_refuted`).  The key
             `is_isomorphic:wire-continuity:false-equal` is emitted only for this variant; it is no longer in
             known_findings.txt, so a regression of the repair is reported as a VIOLATION.
 """
 import itertools
+import random
 
 from harness import circutil as cu
-from harness.common import Driver, Result, err_class
+from harness.common import Driver, Result, coverage_floor, err_class
 
 LEVEL = "proof"
 TRUSTED_BASE = [
@@ -109,7 +112,7 @@ def fld(k):
     return k + "2" if (variant() == "repaired" and k in ("iso", "isonorm", "kept", "stiso")) else k
 
 
-def iso_norm(ca, cb):
+def iso_norm(ca, cb, *args, **kwargs):
     from graphiq.utils.circuit_comparison import circuit_is_isomorphic
 
     x, y = ca.copy(), cb.copy()
@@ -117,7 +120,7 @@ def iso_norm(ca, cb):
     x.remove_identity()
     y.unwrap_nodes()
     y.remove_identity()
-    return circuit_is_isomorphic(x, y)
+    return circuit_is_isomorphic(x, y, *args, **kwargs)
 
 
 def impl_results(ca, cb):
@@ -132,6 +135,18 @@ def n_meas(c):
 
 def oracle_ok(c):
     return c[0] + c[1] <= 6 and n_meas(c) <= 5
+
+
+def oracle_asked(res, stream, decided, why="too-many-branches"):
+    """book-keeping of the bounded state oracle: every time a reported-equal / dropped / refused case asks for a decision it is counted
+    as planned; an undecided answer (None: more than 256 measurement branches) or a circuit outside the oracle bound is counted in
+    `errors` instead of passing silently, and `coverage_floor` (end of `run`) reports a collapse of the decided fraction"""
+    cov = res.extra.setdefault("_oracle", {}).setdefault(stream, [0, 0])
+    cov[1] += 1
+    if decided:
+        cov[0] += 1
+    else:
+        res.count("errors", f"oracle:{why}")
 
 
 def wires_no_c(ts):
@@ -257,6 +272,35 @@ def order_swapped(rng, c):
     return (ne, np_, nc, ts2)
 
 
+def all_regs(t):
+    """all registers of an operation tuple, quantum and classical"""
+    cl = {("c", t[4])} if t[0] == "cctrl" else ({("c", t[2])} if t[0] == "meas" else set())
+    return regs_touched(t) | cl
+
+
+def reordered(rng, c, tries=12):
+    """exchange neighbouring operations that share no register at all (quantum or classical): the DAG is the same up to node ids,
+    so the isomorphism comparison must not notice (Properties/C15.iso_complete, reordering_does_not_change_the_answer)"""
+    ne, np_, nc, ts = c
+    ts2 = list(ts)
+    for _ in range(tries):
+        cand = [i for i in range(len(ts2) - 1) if not (all_regs(ts2[i]) & all_regs(ts2[i + 1]))]
+        if not cand:
+            break
+        i = rng.choice(cand)
+        ts2[i], ts2[i + 1] = ts2[i + 1], ts2[i]
+    return (ne, np_, nc, ts2)
+
+
+def gen_reordered(rng, n):
+    out = []
+    while len(out) < n:
+        c = random_small(rng, max_q=5, max_ops=12) if rng.random() < 0.8 else random_multi(rng)
+        d = reordered(rng, rename(rng, c))
+        out.append(("renamed+reordered", c, d))
+    return out
+
+
 def random_multi(rng):
     """3..5 quantum registers, mostly two-register gates: pairs of gates that share one late wire"""
     ne = rng.randrange(1, 4)
@@ -356,8 +400,12 @@ def check_pair(res, kind, c1, c2, rep, want_state=True):
         if not same_wires:
             res.violation("direct:false-equal:wires", "direct reports equal but registers or some register's operation sequence differ", input=inp)
         elif usable:
-            if cu.same_state(ca, cb) is False:
+            same = cu.same_state(ca, cb)
+            oracle_asked(res, "direct reported equal", same is not None)
+            if same is False:
                 res.violation("direct:false-equal:state", "direct reports equal but the circuits compile to different states", input=inp)
+        elif want_state:
+            oracle_asked(res, "direct reported equal", False, "outside-bound")
     elif impl["direct"] == "0":
         if kind in ("copy", "rewritten") and same_wires:
             res.violation("direct:false-distinct", "direct reports a copy / a re-bracketed copy (wrappers, identities) as different", input=inp)
@@ -365,8 +413,11 @@ def check_pair(res, kind, c1, c2, rep, want_state=True):
         res.violation(f"direct:raises:{impl['direct']}", "direct raised on two valid circuits", input=inp)
     # ---- isomorphism method: equivalence up to renaming
     for meth in ("iso", "isonorm"):
+        if impl[meth] == "1" and want_state and not usable:
+            oracle_asked(res, "isomorphism reported equal", False, "outside-bound")
         if impl[meth] == "1" and usable:
             eq, _ = cu.equivalent_up_to_renaming(ca, cb)
+            oracle_asked(res, "isomorphism reported equal", eq is not None)
             if eq is False:
                 coded = variant() == "coded" and rep.get(meth) == "1" and rep.get("reneq") == "0"
                 key = K_WIRE if coded else (f"{meth}:false-equal:not-the-coded-matcher" if variant() == "coded" else f"{meth}:false-equal:repaired-matcher")
@@ -376,8 +427,9 @@ def check_pair(res, kind, c1, c2, rep, want_state=True):
             res.violation(f"{meth}:raises:{impl[meth]}", "isomorphism comparison raised on two valid circuits", input=inp)
     if kind == "copy" and impl["iso"] != "1":
         res.violation("is_isomorphic:not-reflexive", "a circuit is not isomorphic to its copy", input=inp)
-    if kind == "renamed" and (impl["iso"] != "1" or impl["isonorm"] != "1"):
-        res.violation("is_isomorphic:false-distinct:renamed", "a circuit is not isomorphic to a copy with the registers of each type permuted", input=inp,
+    if kind in ("renamed", "renamed+reordered") and (impl["iso"] != "1" or impl["isonorm"] != "1"):
+        res.violation("is_isomorphic:false-distinct:renamed", "a circuit is not isomorphic to a copy with the registers of each type permuted"
+                      + (" and operations on disjoint registers appended in another order" if kind != "renamed" else ""), input=inp,
                       impl=f"{impl['iso']}/{impl['isonorm']}")
     if kind in ("rewritten",) and same_wires and impl["isonorm"] == "0":
         coded = rep.get(fld("isonorm")) == "0"
@@ -440,8 +492,11 @@ def run_pairs(res, drv, pairs, want_state=True):
             if r12[k] != r21[k]:
                 res.violation(f"{k}:asymmetric", "comparison gives different answers for (a,b) and (b,a)", input={"a": enc(c1), "b": enc(c2)},
                               impl=f"{r12[k]} vs {r21[k]}")
-            if reps[n + i].get(fld(k)) != r21[k] and reps[n + i]["_status"] == "ok":
+            if reps[n + i]["_status"] == "ok" and reps[n + i].get(fld(k)) != r21[k]:
                 res.exact_break(f"compare:{k}", input={"a": enc(c2), "b": enc(c1)}, impl=r21[k], model=reps[n + i].get(fld(k)))
+        if reps[n + i]["_status"] != "ok":
+            # the model must answer for every pair of valid circuits: an error reply is a break of the correspondence, not a skipped case
+            res.exact_break("c15.cmp:model-error", input={"a": enc(c2), "b": enc(c1)}, impl=str(r21), model=reps[n + i]["_raw"][:300])
         res.count("sizes", f"qubits={c1[0] + c1[1]}")
         res.count("sizes", "ops<=5" if len(c1[3]) <= 5 else ("ops<=12" if len(c1[3]) <= 12 else "ops>12"))
     if lines:
@@ -478,6 +533,8 @@ def run_history(res, drv, rng, n):
                 for k in ("direct", "iso", "isonorm"):
                     if rep.get(fld(k)) != impl[k]:
                         res.exact_break(f"compare:{k} (second circuit reached by a {mode} history)", input=inp, impl=impl[k], model=rep.get(fld(k)))
+            elif tag == "ab":
+                res.exact_break("c15.cmp:model-error", input=inp, impl=str(impl), model=rep["_raw"][:300])
             if impl["direct"] == "1" and not same_wires:
                 res.violation("direct:false-equal:history", "direct reports equal but the circuits differ on some register (second circuit reached by an edit history)", input=inp)
             elif impl["direct"] == "0" and d == c:
@@ -577,8 +634,9 @@ def run_filters(res, drv, rng, n_lists):
         objs = [build(c) for c in lst]
         inp = {"list": [enc(c) for c in lst]}
 
-        def iso_check(a, b):
-            return iso_norm(a, b)
+        def iso_check(a, b, *args, **kwargs):
+            # whatever else `CircuitStorage` passes to its check function goes on to `circuit_is_isomorphic`
+            return iso_norm(a, b, *args, **kwargs)
 
         try:
             kept = remove_redundant_circuits(objs)
@@ -608,14 +666,25 @@ def run_filters(res, drv, rng, n_lists):
         if sorted(kept_idx) != kept_idx or len(set(kept_idx)) != len(kept_idx):
             res.violation("remove_redundant:not-a-sublist", "the filtered list is not a sub-list of the input", input=inp, impl=str(kept_idx))
         for i, c in enumerate(lst):
-            if i in kept_idx or not oracle_ok(c):
+            if i in kept_idx:
                 continue
-            ok = False
+            if not oracle_ok(c):
+                oracle_asked(res, "circuit dropped by the filter", False, "outside-bound")
+                continue
+            ok, undecided = False, False
             for k in kept_idx:
-                if oracle_ok(lst[k]) and cu.equivalent_up_to_renaming(objs[k], objs[i])[0] is not False:
+                if not oracle_ok(lst[k]):
+                    undecided = True
+                    continue
+                eq = cu.equivalent_up_to_renaming(objs[k], objs[i])[0]
+                if eq is True:
                     ok = True
                     break
-            if not ok:
+                if eq is None:
+                    undecided = True
+            # decided = an equivalent kept circuit was found, or every kept circuit was decided inequivalent
+            oracle_asked(res, "circuit dropped by the filter", ok or not undecided)
+            if not ok and not undecided:
                 # the known finding only covers what the matcher *as coded* (= the model) does
                 coded = (variant() == "coded" and rep["_status"] == "ok"
                          and ([] if rep["kept"] == "-" else [int(x) for x in rep["kept"].split(".")]) == kept_idx)
@@ -625,8 +694,24 @@ def run_filters(res, drv, rng, n_lists):
         # storage with the default (direct) check: a refused circuit equals a stored one exactly
         stored = [i for i, f in enumerate(flags_d) if f == "1"]
         for i, f in enumerate(flags_d):
+            if f == "0" and not oracle_ok(lst[i]):
+                oracle_asked(res, "circuit refused by the storage", False, "outside-bound")
             if f == "0" and oracle_ok(lst[i]):
-                if not any(oracle_ok(lst[k]) and cu.same_state(objs[k], objs[i]) is not False and lst[k][:3] == lst[i][:3] for k in stored if k < i):
+                ok, undecided = False, False
+                for k in stored:
+                    if k >= i or lst[k][:3] != lst[i][:3]:
+                        continue
+                    if not oracle_ok(lst[k]):
+                        undecided = True
+                        continue
+                    same = cu.same_state(objs[k], objs[i])
+                    if same is True:
+                        ok = True
+                        break
+                    if same is None:
+                        undecided = True
+                oracle_asked(res, "circuit refused by the storage", ok or not undecided)
+                if not ok and not undecided:
                     res.violation("storage:refused-inequivalent", "CircuitStorage refused a circuit that differs from every stored circuit", input=inp, refused=i)
     if lines:
         res.sample(lines[0][:300] + " -> " + reps[0]["_raw"][:120])
@@ -657,6 +742,8 @@ def run_witnesses(res, drv):
         impl = impl_results(ca, cb)
         res.evaluations += 1
         eq, _ = cu.equivalent_up_to_renaming(ca, cb)
+        if eq is None:
+            res.exact_break("witness: the state oracle could not decide a witness pair", input={"a": enc(a), "b": enc(b)})
         if rep.get(fld("iso")) != impl["iso"]:
             res.exact_break("compare:iso (witness)", input={"a": enc(a), "b": enc(b)}, impl=impl["iso"], model=rep.get(fld("iso")))
         if rep.get("iso") != "1" or rep.get("iso2") != "0":
@@ -709,6 +796,9 @@ def run_ged(res, rng, n):
             if r == "1" and not (c[:3] == d[:3] and wires_no_c(c[3]) == wires_no_c(d[3])):
                 res.violation(f"{meth}:false-equal", "a GED-based comparison reports equal but the circuits differ on some register",
                               input={"a": enc(c), "b": enc(d)})
+            elif r.startswith("err:"):
+                # the GED methods are not modelled, so there is no model class to agree with: raising on two valid circuits is a violation
+                res.violation(f"ged:raises:{r[4:]}", f"compare(method={meth!r}) raised on two valid circuits", input={"a": enc(c), "b": enc(d)}, method=meth)
 
 
 # ------------------------------------------------------------------------------------------------ entry points
@@ -742,6 +832,11 @@ def run(ctx):
     run_graphs(res, drv, [random_small(rng, max_q=5, max_ops=14) for _ in range(150 if q else 1500)])
     run_filters(res, drv, rng, 60 if q else 600)
     run_ged(res, rng, 12 if q else 60)
+    # completeness side of the repaired comparison (own generator, drawn last so that the streams above are unchanged)
+    run_pairs(res, drv, gen_reordered(random.Random(rng.getrandbits(64)), 120 if q else 1200))
+    # the bounded state oracle: how many of the decisions asked for were actually taken
+    for stream, (done, planned) in sorted(res.extra.pop("_oracle", {}).items()):
+        coverage_floor(res, "state oracle: " + stream, done, planned, floor=0.5, what="oracle decisions")
     # findings reproduced on this run
     for key, desc in ((K_WIRE, "is_isomorphic false-equal"),):
         if any(v["key"] == key for v in res.violations):
@@ -756,6 +851,7 @@ def search(ctx, res, proof_broken):
     run_pairs(res, drv, exhaustive_pairs()[:6000])
     if not [v for v in res.violations if v["key"] != K_WIRE]:
         run_pairs(res, drv, gen_pairs(ctx.rng, 3000))
+    res.extra.pop("_oracle", None)
     drv.close()
 
 
